@@ -391,7 +391,7 @@ fn history(class: &str, tape: &[u8], _strict: bool) -> (Outcome, String) {
         let saved_notes = w.notes.len();
         w.lenient = Some(a);
         // (1) handled as the protocol says
-        let mut eff = w.model.step(a, &ab.msg, &obs);
+        let mut eff = w.model.step(a, &ab.msg, &crate::model::ObsView::new(&obs));
         // cookies the broker hands to the abuser are the broker's business; freshness problems
         // still count, missing replies to the abuser do not
         eff.problems.retain(|p| p.contains("used before"));
